@@ -84,12 +84,38 @@ Proof.
     cbn [aeval]. rewrite (IHe l0 H Hok rf env). cbn [obind]. rewrite E. reflexivity.
 Qed.
 
-Lemma memoize_some_In : forall c n m, memoize c n = Some m -> In n (ct_registers c ++ names_of (ct_memo c)).
+(* with the exact comparison, default_memoize_register(REGISTERS, reg) is "reg if it is in REGISTERS" *)
+Lemma find_exact : forall n l, find (fun r => name_eqb r n) l = if mem n l then Some n else None.
 Proof.
-  intros c n m H. unfold memoize in H. apply in_or_app.
+  intros n l. induction l as [|a l IH]; [reflexivity|].
+  cbn [find]. unfold mem. cbn [existsb]. rewrite (name_eqb_sym n a).
+  destruct (name_eqb a n) eqn:E.
+  - apply name_eqb_eq in E. subst. reflexivity.
+  - exact IH.
+Qed.
+Lemma memoize_exact : forall c, ct_memo_cmp c = 0 -> forall n,
+  memoize c n = match find_arm n (ct_memo c) with
+                | Some m => Some m
+                | None => if mem n (ct_registers c) then Some n else None
+                end.
+Proof.
+  intros c H n. unfold memoize, memo_eqb. rewrite H. cbn [Z.eqb]. rewrite find_exact. reflexivity.
+Qed.
+
+Lemma memoize_some_In : forall c, ct_memo_cmp c = 0 -> forall n m,
+  memoize c n = Some m -> In n (ct_registers c ++ names_of (ct_memo c)).
+Proof.
+  intros c X n m H. rewrite (memoize_exact c X) in H. apply in_or_app.
   destruct (find_arm n (ct_memo c)) as [k|] eqn:E.
   - right. exact (find_arm_In _ _ _ _ E).
   - left. destruct (mem n (ct_registers c)) eqn:E2; [|discriminate]. apply mem_In. exact E2.
+Qed.
+
+Lemma no_upper_lower : forall n, has_upper n = false -> map lower n = n.
+Proof.
+  induction n as [|b n IH]; intro H; [reflexivity|].
+  unfold has_upper in H. cbn [existsb] in H. apply orb_false_iff in H. destruct H as [H1 H2].
+  cbn [map]. unfold lower at 1. rewrite H1. f_equal. apply IH. exact H2.
 Qed.
 
 Lemma diag_nil : forall c msg p names, diag c msg p names = [] -> forall n, In n names -> p n = true.
@@ -141,7 +167,9 @@ Record ctx_facts (c : ctx_table) : Prop := {
   f_sp : ok_special c (ct_sp_acc c) (ct_sp_name c) = true;
   f_ip : ok_special c (ct_ip_acc c) (ct_ip_name c) = true;
   f_regs : forall r, In r (ct_registers c) -> ok_register c r = true;
-  f_gpr : strs_eqb (ct_gpr c) (ct_registers c) = true
+  f_gpr : strs_eqb (ct_gpr c) (ct_registers c) = true;
+  f_cmp : ct_memo_cmp c = 0;
+  f_lower : forall n, In n (accepted c) -> has_upper n = false
 }.
 
 Lemma facts_of_diagnose : forall c, diagnose c = [] -> ctx_facts c.
@@ -156,7 +184,9 @@ Proof.
   apply app_eq_nil in H. destruct H as [H7 H].
   apply app_eq_nil in H. destruct H as [H8 H].
   apply app_eq_nil in H. destruct H as [H9 H].
-  apply app_eq_nil in H. destruct H as [H10 H11].
+  apply app_eq_nil in H. destruct H as [H10 H].
+  apply app_eq_nil in H. destruct H as [H11 H].
+  apply app_eq_nil in H. destruct H as [H12 H13].
   constructor.
   - exact (diag_nil _ _ _ _ H1).
   - exact (diag_nil _ _ _ _ H2).
@@ -169,6 +199,8 @@ Proof.
   - exact (diag_nil _ _ _ _ H9 _ (or_introl eq_refl)).
   - exact (diag_nil _ _ _ _ H10).
   - exact (diag_nil _ _ _ _ H11 _ (or_introl eq_refl)).
+  - apply Z.eqb_eq. exact (diag_nil _ _ _ _ H12 _ (or_introl eq_refl)).
+  - intros n Hn. pose proof (diag_nil _ _ _ _ H13 n Hn) as X. apply negb_true_iff in X. exact X.
 Qed.
 
 (* The one computational step: the checker run on the nine generated tables.  If a table
@@ -206,7 +238,7 @@ Qed.
 
 Lemma memoizable_accepted : forall n m, memoize c n = Some m -> In n (accepted c).
 Proof.
-  intros n m H. apply memoize_some_In in H. apply (f_memo_acc c F) in H.
+  intros n m H. apply (memoize_some_In c (f_cmp c F)) in H. apply (f_memo_acc c F) in H.
   apply is_some_true in H. destruct H as [x Hx]. exact (find_arm_In _ _ _ _ Hx).
 Qed.
 
@@ -262,7 +294,7 @@ Qed.
 Lemma canonical_fixpoint : forall n m, memoize c n = Some m -> memoize c m = Some m /\ In m (ct_registers c).
 Proof.
   intros n m H. assert (Hm : In m (ct_registers c)).
-  { unfold memoize in H. destruct (find_arm n (ct_memo c)) as [k|] eqn:E.
+  { rewrite (memoize_exact c (f_cmp c F)) in H. destruct (find_arm n (ct_memo c)) as [k|] eqn:E.
     - inversion H; subst k. apply find_arm_snd in E. apply (f_memo_target c F) in E. apply mem_In. exact E.
     - destruct (mem n (ct_registers c)) eqn:E2; [|discriminate]. inversion H; subst m. apply mem_In. exact E2. }
   split; [|exact Hm].
@@ -382,6 +414,19 @@ Lemma register_known : forall r, In r (ct_registers c) -> memoize c r = Some r.
 Proof.
   intros r Hr. pose proof (f_regs c F r Hr) as R. unfold ok_register in R.
   apply andb_true_iff in R. destruct R as [R _]. apply opt_str_eqb_spec. exact R.
+Qed.
+
+(* only the exact spellings are known: every other string is absent everywhere *)
+Lemma not_accepted_unknown : forall n, ~ In n (accepted c) -> memoize c n = None.
+Proof.
+  intros n H. destruct (memoize c n) as [m|] eqn:E; [|reflexivity].
+  exfalso. apply H. exact (memoizable_accepted n m E).
+Qed.
+Lemma case_variant_not_accepted : forall n m, In m (accepted c) -> n <> m -> map lower n = map lower m ->
+  ~ In n (accepted c).
+Proof.
+  intros n m Hm Hne Hl Hn. apply Hne.
+  rewrite <- (no_upper_lower n (f_lower c F n Hn)), <- (no_upper_lower m (f_lower c F m Hm)). exact Hl.
 Qed.
 
 Definition listing (rf : regfile) (names : list name) : list (name * Z) :=
